@@ -1196,3 +1196,35 @@ func lemmaSliceConcat(seq Sequence, c int) Sequence {
 //@   callpre WriteString(s): (int(c) == 'n' && s == ".") || classLit(int(c), s) || literalFor(int(c), s)
 //@   callpre WriteByte(b): !isMeta(int(b)) && (forall x: isLower(x) && subBases(x, int(b)) ==> x == int(b))
 //@   loop 1: invariant forall k in 0..len(bytesOf(query)): bytesOf(query)[k] < 128
+
+// ---------------------------------------------------------------------------
+// sequence.go: Search (C18).  occursAt(s, sep, i): sep occurs in s at offset i.
+//@ spec macro occursAt(s []byte, sep []byte, i int) bool = 0 <= i && i + len(sep) <= len(s) && (forall j in 0..len(sep): s[i+j] == sep[j])
+
+//@ func bytesIndexAll(s, sep []byte) (idx []int)
+//@   trusted suffixarray.New(s).Lookup(sep, -1) is assumed to return exactly the offsets at which sep occurs in s, each once, in no particular order
+//@   requires len(sep) >= 1
+//@   ghost K(i int) int
+//@   ensures fresh(idx)
+//@   ensures sound: forall k in 0..len(idx): occursAt(s, sep, idx[k])
+//@   ensures complete: forall i: occursAt(s, sep, i) ==> 0 <= K(i) && K(i) < len(idx) && idx[K(i)] == i
+//@   ensures distinct: forall a in 0..len(idx): forall b in a+1..len(idx): idx[a] != idx[b]
+//@   assigns nothing
+
+// lower(b): ASCII lower-casing of one byte.
+//@ spec func lower(b int) int = ite(65 <= b && b <= 90, b + 32, b)
+//@ spec macro occursCI(s []byte, sep []byte, i int) bool = 0 <= i && i + len(sep) <= len(s) && (forall j in 0..len(sep): lower(int(s[i+j])) == lower(int(sep[j])))
+
+//@ func Search(seq Sequence, query Sequence) (segments []Segment)
+//@   prop C18
+//@   requires !isnil(seq) && !isnil(query)
+//@   ghost F(i int) int
+//@   ensures empty: len(bytesOf(seq)) == 0 || len(bytesOf(query)) == 0 ==> len(segments) == 0
+//@   ensures sound: forall k in 0..len(segments): segments[k][1] == segments[k][0] + len(bytesOf(query)) && occursCI(bytesOf(seq), bytesOf(query), segments[k][0])
+//@   ensures ascending: forall a in 0..len(segments): forall b in a+1..len(segments): segments[a][0] < segments[b][0]
+//@   ensures complete: len(bytesOf(seq)) > 0 && len(bytesOf(query)) > 0 ==> (forall i: occursCI(bytesOf(seq), bytesOf(query), i) ==> 0 <= F(i) && F(i) < len(segments) && segments[F(i)][0] == i)
+//@   ghost_final F(i) := sortInv(bytesIndexAll_K(i))
+//@   assigns nothing
+//@   loop 1: invariant fresh(segments) && len(segments) == len(indices)
+//@   loop 1: invariant forall k in 0..i: segments[k][0] == indices[k] && segments[k][1] == indices[k] + len(sep)
+//@   loop 1: decreases len(indices) - i
